@@ -126,10 +126,8 @@ def payload(fss, p, kind=S):
     if k == "Seg":
         # first octet = record continuation state (2 bits) | metadata length (6 bits): the whole
         # octet must be concrete, so the continuation state is part of the shape (p[3]) when a
-        # template is needed; for pins (constructive check) the octet is not pinned.
-        rcs = p[3] if len(p) > 3 else None
-        first = C((rcs << 6) | p[1]) if rcs is not None else S
-        t = [first] + [S] * p[1] + [S] * f + [S] * p[2]
+        # shape (p[3]).
+        t = [C((p[3] << 6) | p[1])] + [S] * p[1] + [S] * f + [S] * p[2]
         return t, t
     raise ValueError(p)
 
@@ -151,7 +149,7 @@ def pl_rs(p):
     if k == "Unseg":
         return "Pl::Unseg(%d)" % p[1]
     if k == "Seg":
-        return "Pl::Seg(%d, %d)" % (p[1], p[2])
+        return "Pl::Seg(%d, %d, %d)" % (p[1], p[2], p[3])
     return "Pl::%s" % k
 
 
@@ -172,7 +170,7 @@ def pl_name(p):
     if k == "Unseg":
         return "unseg%d" % p[1]
     if k == "Seg":
-        return "seg%d_%d" % (p[1], p[2]) + ("_s%d" % p[3] if len(p) > 3 else "")
+        return "seg%d_%d_s%d" % (p[1], p[2], p[3])
     return k.lower()
 
 
@@ -266,3 +264,290 @@ def uo_rs(u):
 
 def uo_name(u):
     return u[0].lower() + ("_" + "_".join(str(x) for x in u[1:]) if len(u) > 1 else "")
+
+
+# ================================================================================================
+# Harness table
+# ================================================================================================
+FAMILIES = {}      # name -> dict(property, kind, bound, doc)
+HARNESSES = []     # dicts: name, family, K, unwind, call, accept, tier
+_names = set()
+
+
+def family(name, prop, kind, bound, doc):
+    FAMILIES[name] = dict(property=prop, kind=kind, bound=bound, doc=doc)
+
+
+def rs_pins(pins):
+    return "&[%s]" % ", ".join("(%d, %d)" % p for p in pins)
+
+
+def rs_tpl(t):
+    return "&[%s]" % ", ".join("(0x%02x, 0x%02x)" % o for o in t)
+
+
+def rs_guards(g):
+    return "&[%s]" % ", ".join("(%d, 0x%02x, 0x%02x, %s)" % (a, b, c, "true" if d else "false")
+                                for (a, b, c, d) in g)
+
+
+def add(fam, name, K, call, unwind, accept=True, tier="quick"):
+    assert fam in FAMILIES, fam
+    full = fam + "__" + name
+    assert full not in _names, full
+    _names.add(full)
+    HARNESSES.append(dict(name=full, family=fam, K=K, unwind=unwind, call=call,
+                          accept=accept, tier=tier))
+
+
+def unwind_for(n, pins=()):
+    return max(10, n + 2, len(pins) + 2)
+
+
+def add_rt(fam, name, fn_args, canon, tier="quick", slack=1):
+    """constructive round trip: call = checks::<fn>(<args>, PINS, n, b)"""
+    n = len(canon)
+    pins = pins_of(canon)
+    call = "checks::%s, %s, %d, b)" % (fn_args, rs_pins(pins), n)
+    add(fam, name, n + slack, call, unwind_for(n, pins), True, tier)
+
+
+def add_dec(fam, name, dec, wire, canon=None, guards=(), lax=False, accept=None, tier="quick"):
+    """template-driven decode check"""
+    K = len(wire)
+    assert K <= 64, (name, K)
+    if canon is None:
+        c = "None"
+        npins = 0
+    else:
+        pins = pins_of(canon)
+        npins = len(pins)
+        c = "Some((%d, %s))" % (len(canon), rs_pins(pins))
+    call = "checks::c06_decode(Dec::%s, %s, %s, %s, %s, b)" % (
+        dec, rs_tpl(wire), rs_guards(guards), c, "true" if lax else "false")
+    if accept is None:
+        accept = canon is not None
+    add(fam, name, K, call, unwind_for(K, [0] * npins), accept, tier)
+
+
+L_Q = (0, 1, 2)
+FSS = ("Small", "Large")
+
+
+def fs(fss):
+    return "Fss::" + fss
+
+
+def fl(fss):
+    return fss[0].lower()
+
+
+# ---------------------------------------------------------------------------------------------- C05
+def gen_c05():
+    family("c05_fixed", "C05", "complete", "",
+           "fixed-layout values: VariableID, TransmissionMode, FaultHandlerOverride, "
+           "SegmentRequestForm, EOF, ACK, Prompt, KeepAlive, NAK (0..2 requests; 3,4 thorough), "
+           "EntityID/FaultHandlerOverride TLVs. One harness per width/flag shape; all value "
+           "fields symbolic full width")
+    for w in WIDTHS:
+        add_rt("c05_fixed", "varid_w%d" % w, "c05_varid(%d" % w, varid_enc(w))
+        add_rt("c05_fixed", "tlv_eid_w%d" % w, "c05_tlv(Tlv::Eid(%d), false" % w, tlv(("Eid", w)))
+    add_rt("c05_fixed", "tmode", "c05_tmode(", [S])
+    HARNESSES[-1]["call"] = HARNESSES[-1]["call"].replace("c05_tmode(, ", "c05_tmode(")
+    add_rt("c05_fixed", "fho", "c05_tlv(Tlv::Fho, true", [S])
+    add_rt("c05_fixed", "tlv_fho", "c05_tlv(Tlv::Fho, false", tlv(("Fho",)))
+    for fss in FSS:
+        add_rt("c05_fixed", "segreq_" + fl(fss), "c05_segreq(%s" % fs(fss), [S] * (2 * fsz(fss)))
+        pls = [("Eof", None)] + [("Eof", w) for w in WIDTHS] + [("KeepAlive",)] \
+            + [("Nak", n) for n in (0, 1, 2)]
+        for p in pls:
+            add_rt("c05_fixed", pl_name(p) + "_" + fl(fss),
+                   "c05_payload(%s, %s" % (fs(fss), pl_rs(p)), payload(fss, p)[1])
+        for n in (3, 4):
+            p = ("Nak", n)
+            if len(payload(fss, p)[1]) <= 64:
+                add_rt("c05_fixed", pl_name(p) + "_" + fl(fss),
+                       "c05_payload(%s, %s" % (fs(fss), pl_rs(p)), payload(fss, p)[1], "thorough")
+    for p in (("Ack",), ("Prompt",)):
+        add_rt("c05_fixed", pl_name(p), "c05_payload(Fss::Small, %s" % pl_rs(p),
+               payload("Small", p)[1])
+
+    family("c05_header", "C05", "complete", "",
+           "PDUHeader for every (entity width, sequence width, segmentation control, segment "
+           "metadata flag); version, type, direction, mode, CRC flag, file-size flag, the 16-bit "
+           "length and all identifier values symbolic")
+    for we in WIDTHS:
+        for ws in WIDTHS:
+            for segctl in (0, 1):
+                for seg in (0, 1):
+                    t = header(we, ws, 0, False, "Small", False, seg, segctl)
+                    t[0] = S
+                    t[1] = S
+                    t[2] = S
+                    tier = "quick" if (segctl, seg) in ((0, 0), (1, 1)) or we == ws else "thorough"
+                    add_rt("c05_header", "e%d_s%d_c%d_m%d" % (we, ws, segctl, seg),
+                           "c05_header(%d, %d, %s, %s" % (we, ws, "true" if segctl else "false",
+                                                         "true" if seg else "false"), t, tier, 0)
+
+    family("c05_var", "C05", "bounded",
+           "string / TLV body / list lengths in {0,1,2} (quick), plus 3, 255-octet bodies and "
+           "63-octet segment metadata (thorough); file names ASCII",
+           "FlowLabel, MessageToUser, FileStoreRequest/Response (standalone and as TLV), "
+           "Finished, Metadata, FileData (both kinds)")
+    for n in (0, 1, 2, 3, 255):
+        tier = "quick" if n in L_Q else "thorough"
+        for k in ("Flow", "Msg"):
+            add_rt("c05_var", "tlv_%s%d" % (k.lower(), n), "c05_tlv(Tlv::%s(%d), false" % (k, n),
+                   tlv((k, n)), tier)
+            add_rt("c05_var", "%s%d" % (k.lower(), n), "c05_tlv(Tlv::%s(%d), true" % (k, n),
+                   tlv((k, n))[1:], tier)
+    for l1 in (0, 1, 2, 3):
+        for l2 in (0, 1, 2, 3):
+            tier = "quick" if l1 in L_Q and l2 in L_Q else "thorough"
+            add_rt("c05_var", "tlv_fsreq%d%d" % (l1, l2),
+                   "c05_tlv(Tlv::FsReq(%d, %d), false" % (l1, l2), tlv(("FsReq", l1, l2)), tier)
+            if l1 == l2:
+                add_rt("c05_var", "fsreq%d%d" % (l1, l2),
+                       "c05_tlv(Tlv::FsReq(%d, %d), true" % (l1, l2), tlv(("FsReq", l1, l2))[1:], tier)
+            for lm in (0, 1, 2, 3):
+                tier2 = "quick" if tier == "quick" and lm in L_Q else "thorough"
+                if 3 in (l1, l2, lm) and not (l1 == l2 == lm or (l1, l2, lm) in ((3, 0, 1), (0, 3, 2), (1, 2, 3))):
+                    continue
+                add_rt("c05_var", "tlv_fsresp%d%d%d" % (l1, l2, lm),
+                       "c05_tlv(Tlv::FsResp(%d, %d, %d), false" % (l1, l2, lm),
+                       tlv(("FsResp", l1, l2, lm)), tier2)
+                if l1 == l2 == lm:
+                    add_rt("c05_var", "fsresp%d%d%d" % (l1, l2, lm),
+                           "c05_tlv(Tlv::FsResp(%d, %d, %d), true" % (l1, l2, lm),
+                           tlv(("FsResp", l1, l2, lm))[1:], tier2)
+    add_rt("c05_var", "tlv_fsreq_255_0", "c05_tlv(Tlv::FsReq(255, 0), false", tlv(("FsReq", 255, 0)),
+           "thorough")
+    add_rt("c05_var", "tlv_fsresp_0_0_255", "c05_tlv(Tlv::FsResp(0, 0, 255), false",
+           tlv(("FsResp", 0, 0, 255)), "thorough")
+    # Finished
+    rlists_q = [(), ((1, 0, 2),), ((0, 2, 1),), ((2, 2, 2),), ((1, 1, 0), (0, 1, 1)),
+                ((2, 0, 1), (1, 2, 0))]
+    rlists_t = [((3, 3, 3),), ((0, 0, 0), (1, 1, 1), (2, 2, 2)), ((3, 0, 1), (0, 3, 0), (1, 0, 3))]
+    conds = [(False, None), (True, None)] + [(True, w) for w in WIDTHS]
+    for rl in rlists_q + rlists_t:
+        for (err, fw) in conds:
+            p = ("Fin", rl, err, fw)
+            canon = payload("Small", p, A)[1]
+            if len(canon) > 64:
+                continue
+            tier = "quick" if rl in rlists_q and (fw in (None, 2) or len(rl) <= 1) else "thorough"
+            add_rt("c05_var", pl_name(p), "c05_payload(Fss::Small, %s" % pl_rs(p), canon, tier)
+    # Metadata
+    opts_q = [(), (("Msg", 1),), (("Fho",),), (("Flow", 2),), (("Eid", 4),), (("FsReq", 1, 1),),
+              (("FsResp", 1, 0, 1),), (("Msg", 2), ("Fho",)), (("Flow", 1), ("Eid", 2))]
+    opts_t = [(("Msg", 0), ("Flow", 0), ("Eid", 1)), (("FsReq", 2, 0), ("FsResp", 0, 2, 2)),
+              (("Eid", 8), ("Msg", 3), ("Fho",)), (("Fho",), ("Fho",), ("Fho",))]
+    for fss in FSS:
+        for (ls, ld) in ((1, 2), (0, 0), (2, 1), (2, 2), (3, 3), (0, 3)):
+            for o in opts_q + opts_t:
+                if (ls, ld) != (1, 2) and o != ():
+                    continue
+                p = ("Meta", ls, ld, o)
+                tier = "quick" if o in opts_q and 3 not in (ls, ld) else "thorough"
+                add_rt("c05_var", pl_name(p) + "_" + fl(fss),
+                       "c05_payload(%s, %s" % (fs(fss), pl_rs(p)), payload(fss, p, A)[1], tier)
+        for n in (0, 1, 2, 3):
+            p = ("Unseg", n)
+            add_rt("c05_var", pl_name(p) + "_" + fl(fss),
+                   "c05_payload(%s, %s" % (fs(fss), pl_rs(p)), payload(fss, p)[1],
+                   "quick" if n in L_Q else "thorough")
+        for r in (0, 1, 2, 3):
+            for (m, n) in ((0, 1), (1, 1), (2, 1), (1, 0), (2, 2), (3, 3), (63, 1)):
+                if (m, n) in ((1, 0), (2, 2)) and r != 3:
+                    continue
+                p = ("Seg", m, n, r)
+                tier = "quick" if max(m, n) <= 2 else "thorough"
+                if m == 63 and (r != 1):
+                    continue
+                add_rt("c05_var", pl_name(p) + "_" + fl(fss),
+                       "c05_payload(%s, %s" % (fs(fss), pl_rs(p)), payload(fss, p)[1], tier)
+
+    family("c05_userops", "C05", "bounded",
+           "every identifier width combination (complete for the identifier-only kinds); string / "
+           "body lengths in {0,1,2}; SFORequest / SFOReport / ProxySegmentationControl have "
+           "private fields and are proved from the decoder side only",
+           "all 26 reserved CFDP user operations")
+    two_ids = ["OrigTx", "RespStatus", "RespResume", "RespSuspend", "ReqSuspend", "ReqResume"]
+    for k in two_ids:
+        for we in WIDTHS:
+            for ws in WIDTHS:
+                u = (k, we, ws)
+                add_rt("c05_userops", uo_name(u), "c05_userop(%s" % uo_rs(u), userop(u)[1])
+    for we in WIDTHS:
+        for ws in WIDTHS:
+            for l in ((1,) if (we, ws) != (1, 1) else (0, 1, 2)):
+                u = ("ReqStatus", we, ws, l)
+                add_rt("c05_userops", uo_name(u), "c05_userop(%s" % uo_rs(u), userop(u, A)[1])
+    for w in WIDTHS:
+        for (l1, l2) in (((1, 2),) if w != 2 else ((1, 2), (0, 0), (2, 1))):
+            u = ("ProxyPut", w, l1, l2)
+            add_rt("c05_userops", uo_name(u), "c05_userop(%s" % uo_rs(u), userop(u, A)[1])
+    for k in ("ProxyMsg", "ProxyFlow", "SfoMsg", "SfoFlow"):
+        for n in L_Q:
+            u = (k, n)
+            add_rt("c05_userops", uo_name(u), "c05_userop(%s" % uo_rs(u), userop(u)[1])
+    for k in ("ProxyFho", "ProxyTm", "ProxyPutCancel", "RespProxyPut", "SfoFho"):
+        u = (k,)
+        add_rt("c05_userops", uo_name(u), "c05_userop(%s" % uo_rs(u), userop(u)[1])
+    for k in ("ProxyFsReq", "SfoFsReq", "RespDirList", "ReqDirList"):
+        for (l1, l2) in ((0, 0), (1, 2), (2, 1), (2, 2), (0, 1)):
+            u = (k, l1, l2)
+            add_rt("c05_userops", uo_name(u), "c05_userop(%s" % uo_rs(u), userop(u, A)[1])
+    for k in ("RespFs", "SfoFsResp"):
+        for (l1, l2, lm) in ((0, 0, 0), (1, 2, 0), (2, 1, 2), (0, 1, 1), (2, 2, 2)):
+            u = (k, l1, l2, lm)
+            add_rt("c05_userops", uo_name(u), "c05_userop(%s" % uo_rs(u), userop(u, A)[1])
+    # decoder-side (private fields)
+    u = ("ProxySegCtrl",)
+    w, c = userop(u)
+    add_dec("c05_userops", "dec_" + uo_name(u), "UserOp", w, c)
+    for (ll, a, b, c3) in ((0, 1, 1, 1), (2, 2, 2, 2), (1, 4, 4, 4), (0, 8, 8, 8), (1, 1, 2, 4),
+                           (2, 8, 4, 2), (1, 2, 8, 1)):
+        u = ("SfoReport", ll, a, b, c3)
+        w, c = userop(u)
+        add_dec("c05_userops", "dec_" + uo_name(u), "UserOp", w, c)
+    for (ll, a, b, l1, l2) in ((0, 1, 1, 0, 0), (1, 2, 4, 1, 1), (2, 8, 8, 1, 0), (0, 4, 2, 0, 1),
+                               (1, 4, 8, 1, 1), (1, 1, 2, 1, 1)):
+        u = ("SfoRequest", ll, a, b, l1, l2)
+        w, c = userop(u, A)
+        add_dec("c05_userops", "dec_" + uo_name(u), "UserOp", w, c)
+
+    family("c05_pdu", "C05", "bounded",
+           "payload shapes as listed in the harness names; identifier widths (1,1) (2,4) (4,2) "
+           "(8,8) rotated over the payload kinds in the quick tier, all four for each in thorough",
+           "whole PDU (header ++ payload ++ CRC) through PDU::encode/decode, CRC on and off, "
+           "small and large file-size encodings")
+    kinds = [("Eof", None), ("Eof", 2), ("Ack",), ("KeepAlive",), ("Nak", 1), ("Prompt",),
+             ("Unseg", 2), ("Seg", 1, 1, 2), ("Meta", 1, 1, (("Fho",),)),
+             ("Fin", ((1, 0, 1),), True, 1)]
+    wcombos = [(1, 1), (2, 4), (4, 2), (8, 8)]
+    i = 0
+    for p in kinds:
+        for crc in (0, 1):
+            for fss in FSS:
+                for j, (we, ws) in enumerate(wcombos):
+                    pw, pc = payload(fss, p, A)
+                    segctl = (i + j) & 1
+                    h = header(we, ws, len(pc), crc, fss, pl_is_filedata(p), p[0] == "Seg", segctl,
+                               first_free=True)
+                    canon = h + pc + ([S, S] if crc else [])
+                    if len(canon) > 64:
+                        continue
+                    tier = "quick" if j == i % 4 else "thorough"
+                    add_rt("c05_pdu", "%s_%s_crc%d_e%d_s%d" % (pl_name(p), fl(fss), crc, we, ws),
+                           "c05_pdu(%d, %d, %s, %s, %s, %s" % (
+                               we, ws, "true" if crc else "false", "true" if segctl else "false",
+                               fs(fss), pl_rs(p)), canon, tier)
+                i += 1
+
+    family("c05_report", "C05", "complete", "",
+           "daemon::Report for every identifier width pair; state, status, condition symbolic")
+    for we in WIDTHS:
+        for ws in WIDTHS:
+            add_rt("c05_report", "e%d_s%d" % (we, ws), "c05_report(%d, %d" % (we, ws),
+                   varid_enc(we) + varid_enc(ws) + [S, S, S])
